@@ -122,6 +122,10 @@ func drawCdpConfig(r *Rng, cfg *Config) {
 	}
 	drawLiqConfig(r, cfg)
 	drawAuxConfig(r, cfg)
+	k["esm"] = 0
+	if r.Chance(1, 4) {
+		k["esm"] = 1
+	}
 }
 
 func feeChoice(r *Rng) sdk.Dec {
@@ -139,7 +143,15 @@ func setupCdp(w *World) {
 	for i := 0; i < int(cfg.K("filler_apps")); i++ {
 		p.AppIDs = append(p.AppIDs, w.addApp(fillers[i][0], fillers[i][1]))
 	}
-	p.AppID = w.addApp("harbor", "hbr")
+	if cfg.KB("esm") {
+		// emergency shutdown needs a governance token: the app is created with governance parameters
+		if err := w.App.AssetKeeper.AddAppRecords(w.Ctx(), assettypes.AppData{Name: "harbor", ShortName: "hbr", MinGovDeposit: sdk.NewInt(1000000), GovTimeInSeconds: 300}); err != nil {
+			panic(err)
+		}
+		p.AppID = w.App.AssetKeeper.GetAppID(w.Ctx())
+	} else {
+		p.AppID = w.addApp("harbor", "hbr")
+	}
 	p.AppIDs = append(p.AppIDs, p.AppID)
 
 	// assets; names must be ^[A-Z]+$
@@ -170,7 +182,7 @@ func setupCdp(w *World) {
 
 	// the governance token is a genesis token of the app (as on the live chain; tokenmint and collector set-up rely on it)
 	if err := w.App.AssetKeeper.AddAssetInAppRecords(w.Ctx(), assettypes.AppData{Id: p.AppID, GenesisToken: []assettypes.MintGenesisToken{
-		{AssetId: p.Gov.ID, GenesisSupply: pow10(12), IsGovToken: false, Recipient: w.Actors[0].Bech()}}}); err != nil {
+		{AssetId: p.Gov.ID, GenesisSupply: pow10(12), IsGovToken: cfg.KB("esm"), Recipient: w.Actors[0].Bech()}}}); err != nil {
 		panic(fmt.Sprintf("genesis token: %v", err))
 	}
 	// pairs
@@ -278,6 +290,7 @@ func setupCdp(w *World) {
 	}
 	setupLiqV2(w, r)
 	setupAux(w, r)
+	setupEsm(w, r)
 	w.touchModuleAccounts()
 	w.Liq = newLiqTracker(w)
 	w.OnBlock = append(w.OnBlock, func(w *World) { w.Liq.observe(w, false, true) })
